@@ -121,7 +121,13 @@ HistNext ==
     \/ \E x \in HistArith : HistDo("add", x, NoAff, Arith("add", h, BuildTree(x, K, "dfs")))
     \/ \E x \in HistArith : HistDo("sub", x, NoAff, Arith("sub", h, BuildTree(x, K, "dfs")))
 
-Next == PickF \/ PickG \/ Apply \/ ApplyAff \/ ApplyRegions \/ ApplyFault \/ HistStart \/ (stage \in {"h0", "h1", "h2", "h3"} /\ HistNext)
+\* C19: the tree itself is rendered (DOT, Display)
+ApplyFormat ==
+    /\ stage = "f" /\ MODE = "format"
+    /\ op' = "format" /\ h' = f.t
+    /\ stage' = "done" /\ UNCHANGED <<f, g, aff, sched, hist>>
+
+Next == PickF \/ PickG \/ Apply \/ ApplyAff \/ ApplyRegions \/ ApplyFault \/ ApplyFormat \/ HistStart \/ (stage \in {"h0", "h1", "h2", "h3"} /\ HistNext)
 Spec == Init /\ [][Next]_vars
 
 \* ------------------------------------------------------------------ properties at design level
@@ -213,6 +219,7 @@ Emit ==
     EmitHist /\
     (EMIT /\ stage' = "done") =>
         IF MODE = "history" THEN TRUE
+        ELSE IF MODE = "format" THEN PrintT("SCRIPT " \o ToJson([fam |-> "format", kind |-> "tree", lhs |-> ScriptOf(f'.abs, K, f'.lay)]))
         ELSE IF MODE = "fault"
         THEN (sched' = <<>>) =>       \* one fault-sweep script per tree: the harness enumerates the plans over the real run's LP calls
              /\ PrintT("SCRIPT " \o ToJson([fam |-> "afftree", k |-> K, q |-> 1, mode |-> "history", lhs |-> ScriptOf(f'.abs, K, f'.lay),
